@@ -193,7 +193,8 @@ Definition view_C01 (c : ctx) (items : list item) : view :=
 (** ** C16: generated parameter names *)
 Definition names_usable (s : sig) : bool :=
   forallb is_plain_ident_arg (p_items (s_inputs s)) &&
-  nodup_str (typed_names s) && negb (str_mem (s_name s) (typed_names s)).
+  (* distinct as identifiers: [r#x] and [x] are the same identifier *)
+  nodup_str (map unraw (typed_names s)) && negb (str_mem (unraw (s_name s)) (map unraw (typed_names s))).
 
 (** the name the property's rules ask for, when they ask for one *)
 Definition desired_name (a : fnarg) : option string :=
@@ -231,8 +232,8 @@ Definition c16_rules (k : receiver_kind) (no_deps : bool) (src out : sig) : bool
   let wanted := somes desired in
   (* the rules speak when the wanted names are distinct and none is the function's own name; for impl
      blocks [__impl] is the macro's reserved receiver identifier *)
-  if nodup_str wanted && negb (str_mem (s_name src) wanted)
-     && negb (match k with RSelfRef => false | _ => str_mem "__impl" (s_name src :: wanted) end)
+  if nodup_str (map unraw wanted) && negb (str_mem (unraw (s_name src)) (map unraw wanted))
+     && negb (match k with RSelfRef => false | _ => str_mem "__impl" (map unraw (s_name src :: wanted)) end)
   then rules_ok desired (out_names k out)
   else Nat.eqb (List.length desired) (List.length (out_names k out)).
 
